@@ -383,9 +383,27 @@ pub fn conc_configs(prop: &str, thorough: bool) -> Vec<SimConfig> {
         ("C02", false) => pick(&["n2-full-preempt-true", "n2-lax-is-open"]),
         ("C02", true) => pick(&["n2-full-preempt-true", "n2-full-preempt-false", "n2-lax-is-open", "n2-lax-is-open-max0", "n2-upgrade", "n2-split-handshake-preempt-true", "n2-two-origins"]),
         ("C03" | "C19", false) => pick(&["n2-full-preempt-true", "n2-full-preempt-false"]),
-        ("C03" | "C19", true) => pick(&["n2-full-preempt-true", "n2-full-preempt-false", "n2-split-handshake-preempt-true", "n2-split-handshake-preempt-false", "n2-two-origins"]),
+        ("C03" | "C19", true) => {
+            let mut v = pick(&["n2-full-preempt-true", "n2-full-preempt-false", "n2-split-handshake-preempt-true", "n2-split-handshake-preempt-false", "n2-two-origins"]);
+            // three requests (an owner, a follower and a third party), request completion as one step, every
+            // state within nine steps
+            for mut c in pick(&["n3-macro-preempt-true", "n3-macro-preempt-false"]) {
+                c.name = format!("{}-d9", c.name);
+                c.max_depth = Some(9);
+                v.push(c);
+            }
+            v
+        }
         ("C04", false) => pick(&["n2-full-preempt-true"]),
-        ("C04", true) => pick(&["n2-full-preempt-true", "n2-full-preempt-false", "n2-two-origins"]),
+        ("C04", true) => {
+            let mut v = pick(&["n2-full-preempt-true", "n2-full-preempt-false", "n2-two-origins"]);
+            for mut c in pick(&["n3-macro-preempt-true"]) {
+                c.name = format!("{}-d9", c.name);
+                c.max_depth = Some(9);
+                v.push(c);
+            }
+            v
+        }
         ("C05", false) => {
             let mut v = pick(&["n2-timeout-None"]);
             // the clock moving while an operation is in progress: one tick, HTTP/1.1 only
